@@ -90,9 +90,10 @@ pub fn replay(cases: &str, verdicts: &str) {
         };
         let g = guard(|| matmul(&a.data, &b.data, a.nrows, b.nrows, ta, tb));
         v.check(judge_slice(&g), "matmul", &class, &c, json!(g.as_ref().map(|r| fjs(r))));
-        for bs in 1..=(2 * m.max(l).max(n)) {
+        // "every block size >= 1": the sizes around the dimensions and the far end of the range (the "one single block" idiom)
+        for bs in (1..=(2 * m.max(l).max(n))).chain([1usize << 40, usize::MAX / 2 + 1, usize::MAX - 1, usize::MAX]) {
             let g = guard(|| matmul_blocked(&a.data, &b.data, a.nrows, b.nrows, ta, tb, bs));
-            let cls = format!("{} bs{}", class, if bs == 1 { "=1" } else if bs < l.max(n) { "<dim" } else if bs == l.max(n) { "=dim" } else { ">dim" });
+            let cls = format!("{} bs{}", class, if bs == 1 { "=1" } else if bs < l.max(n) { "<dim" } else if bs == l.max(n) { "=dim" } else if bs >= 1 << 40 { " huge" } else { ">dim" });
             v.check(judge_slice(&g), "matmul_blocked", &cls, &json!({"case": c, "bsize": bs}), json!(g.as_ref().map(|r| fjs(r))));
         }
         // the same buffer as both operands (A A^T, A^T A): the result must not depend on the operands being one object
